@@ -175,8 +175,7 @@ def process(lines, driver_exe, workdir):
             for m in E.CPU:
                 jobs.append((m, 0, c["src"]))
             for m in E.GPU:
-                jobs.append((m, 0, c["src"]))
-                jobs.append((m, 1, c["src"]))
+                jobs.append((m, 2, c["src"]))
         except E.Malformed:
             c["malformed"] = True
         cases.append(c)
@@ -191,8 +190,8 @@ def process(lines, driver_exe, workdir):
             c["tr"][m] = outs[j]
             j += 1
         for m in E.GPU:
-            c["tr"][m] = (outs[j], outs[j + 1])
-            j += 2
+            c["tr"][m] = outs[j]
+            j += 1
         flat = [c["tr"][m] for m in E.CPU] + [x for m in E.GPU for x in c["tr"][m]]
         c["all_err"] = all(x == "ERR" for x in flat)
         c["any_bad"] = any(x == "ERR" or x.startswith("CRASH") for x in flat)
